@@ -554,8 +554,8 @@ Definition route_and_call (rt : routing) (st : rstate) : list event * rstate * (
       end
   end.
 
-Definition handle (p : program) : list event * rstate * out :=
-  let st0 := st_init in                                          (* response.__init__() *)
+(* st0 = the response object as response.__init__() left it *)
+Definition handle_from (st0 : rstate) (p : program) : list event * rstate * out :=
   let '(evB, st1, xB) := run_hooks EvHookB (indexed (p_before p)) st0 in
   let '(evM, st2, resM) :=
     match xB with
@@ -571,6 +571,8 @@ Definition handle (p : program) : list event * rstate * out :=
            | inr (XExc j) => OHttp true (err_handle500 j)         (* except Exception as err500 *)
            end in
   (evB ++ evM ++ evA, st3, o).
+
+Definition handle (p : program) : list event * rstate * out := handle_from st_init p.
 
 (* ------------------------------------------------------------------ *)
 (* 7. Ombott.wsgi (ombott.py:374) and the server's side                *)
@@ -609,8 +611,8 @@ Definition catchall (ev : list event) (st : rstate) : wsgi_res :=
        | None => WsEscaped ev'
        end.
 
-Definition wsgi (p : program) : wsgi_res :=
-  let '(evH, st, o) := handle p in
+(* everything after self._handle(environ) returned *)
+Definition wsgi_tail (evH : list event) (st : rstate) (o : out) : wsgi_res :=
   match cast cast_fuel 1 o st with
   | COutOfFuel => WsOutOfFuel
   | CRaise => catchall evH st
@@ -622,6 +624,9 @@ Definition wsgi (p : program) : wsgi_res :=
       | None => catchall (evH ++ evC) st'
       end
   end.
+
+Definition wsgi (p : program) : wsgi_res :=
+  let '(evH, st, o) := handle p in wsgi_tail evH st o.
 
 (* what a server sees when it iterates the returned object and then closes it.
    st = the thread's response object at that time (the encoding genexpr reads
